@@ -114,7 +114,8 @@ def build_all(models=None, targets=None, jobs=16):
         # targets=None: the full development (setup); otherwise only what the property needs, so that a
         # half-edited file of another property cannot break this one
         tg = "" if targets is None else " ".join(targets)
-        rc, o = sh("timeout 1500 make -j%d %s 2>&1" % (jobs, tg), 1600, cwd=COQ)
+        tmo = 2400 if targets is None else 900      # full development vs one property's cone
+        rc, o = sh("timeout %d make -j%d %s 2>&1" % (tmo, jobs, tg), tmo + 100, cwd=COQ)
         if rc and "No rule to make target" in o:
             # a .v file listed in the Makefile vanished (somebody's scratch file): regenerate from a fresh glob, once
             files = vfiles()
@@ -126,7 +127,7 @@ def build_all(models=None, targets=None, jobs=16):
                 except OSError:
                     pass
             sh("coq_makefile -f _CoqProject -o Makefile", 120, cwd=COQ)
-            rc, o = sh("timeout 1500 make -j%d %s 2>&1" % (jobs, tg), 1600, cwd=COQ)
+            rc, o = sh("timeout %d make -j%d %s 2>&1" % (tmo, jobs, tg), tmo + 100, cwd=COQ)
         if rc:
             raise CheckAbort("coq build failed:\n" + o[-4000:])
         exs = sorted(glob.glob(os.path.join(COQ, "Run", "Ex*.v")))
